@@ -432,7 +432,7 @@ def _in_zero_region(line):
     f = line.split(SEP)
     if f[1] == "rep" and int(f[2]) == 0:
         return True
-    return any(_ZERO_GROUP.search(unesc(x)) for x in f[2:4])
+    return any(_ZERO_GROUP.search("".join(unesc(x).split())) for x in f[2:4])
 
 
 REGIONS = {"zero_bracket_factor": _in_zero_region}
@@ -545,6 +545,8 @@ def embed_text(rng, kind, pyval, canon):
     if kind in INT_KINDS or kind in VAR_KINDS:
         return str(canon) if rng.random() < 0.8 or canon < 0 else "+" + str(canon)
     if kind in STR_KINDS:
+        if not canon:
+            return None
         return canon if rng.random() < 0.5 else {"hex": "0x", "bin": "0b", "oct": "0o"}[kind] + canon
     if kind == "bool":
         return rng.choice([str(canon), str(int(canon))])
@@ -687,9 +689,24 @@ def gen_tree(rng, ctx, mode, depth, allow_lengthless, zero_ok=True):
         if depth < 3 and c < (0.3 if depth == 0 else 0.2):
             fac = None
             if rng.random() < 0.7:
-                fac = rng.choice([0, 1, 2, 2, 3, 4] if zero_ok else [1, 2, 2, 3, 4])
+                fac = rng.choice([0, 1, 1, 2, 2, 2, 2, 3, 3, 4, 4] if zero_ok else [1, 2, 2, 3, 4])
             ftxt = None if fac is None else (str(fac) if rng.random() < 0.9 else "0" + str(fac))
-            nodes.append(("group", fac, ftxt, gen_tree(rng, ctx, mode, depth + 1, False, zero_ok)))
+            if fac == 0:
+                # the code treats 0*(…) like 1*(…) (known finding): keep positional values out of such groups so that a
+                # shifted value can never turn into a gigantic `Bits(n)` / `bytes(n)` allocation
+                ch = []
+                for _ in range(rng.randint(1, 3)):
+                    for _ in range(30):
+                        lf = gen_leaf(rng, ctx, mode, False)
+                        if all(a["fixed"] is not None for a in lf.atoms):
+                            break
+                    else:
+                        L = rng.choice([0, 1, 3, 8])
+                        lf = Leaf("pad:%d" % L, [dict(kind="pad", L=L, fixed=(None, None), tok=("pad", L, None), pre="pad:%d" % L)], True)
+                    ch.append(("leaf", lf, None, None))
+                nodes.append(("group", fac, ftxt, ch))
+            else:
+                nodes.append(("group", fac, ftxt, gen_tree(rng, ctx, mode, depth + 1, False, zero_ok)))
         else:
             fac = None
             if rng.random() < 0.2:
@@ -874,7 +891,9 @@ def gen_malformed(rng, n):
             kw = {"n": 8} if rng.random() < 0.5 else {}
             yield SEP.join(["C05", "pack", esc(",".join(toks2)), kw_wire(kw), vals_wire(vals2), "0", "!format"])
             if rng.random() < 0.5:
-                yield SEP.join(["C05", "tok", esc(",".join(toks2)), "n" if kw else "-", "!format" if bad not in ("uint", "int", "uintbe", "uint:0", "int0", "intle0", "ue:8", "ue8", "bool:2", "bool0", "uintle:12", "intbe7", "hex:7", "oct:4", "foo:8", "q") else "?"])
+                tokbad = bad in ("2*(uint:8", "((uint:8)", "(", "x*(uint:8)", "*(uint:8)", "2*3*uint:8", "*uint:8", "uint:8*", "1.5*uint:8", "a*uint:8", "uint:8:8",
+                                 "uint::8", "uint:m", "=5", "<", "<x", "<2", "%h", "<h=1", "0y12", "uint:-8", "2*(a", "-1*(uint:8)", "uint:8)", "(uint:8))", ")(")
+                yield SEP.join(["C05", "tok", esc(",".join(toks2)), "n" if kw else "-", "!format" if tokbad else "?"])
         else:                                                    # bracket strings straight into expand_brackets
             alphabet = ["(", ")", ",", "a", "b", "2", "3", "0", "*", "12"]
             s = "".join(rng.choice(alphabet) for _ in range(rng.randint(1, 10)))
